@@ -24,6 +24,23 @@ CLAIMED = {
          "Sampling, not the exhaustive enumeration the property's quantifier mentions (that is model checking). The caller persists the header at each checkpoint, as Memvid does.", "DESIGN.md section 7 C05"),
 }
 
+def _hist(pid, what, ref=None):
+    CLAIMED[pid] = ("memsim", "exploration", "deterministic simulation: seeded histories with restarts, process death, doctor and vacuum vs reference model",
+        what + " Checked on the live handle, after commit, after clean and dirty restarts, on read-only handles, after doctor and vacuum. Exploration: evidence over the explored seeds, not proof.",
+        "Trusted: the reference model and, where stated in the evidence file, ground truth re-derived from the real handle's own frame_text_by_id.", ref or f"DESIGN.md section 7 {pid}")
+
+_hist("C06", "Identity oracles on C01-style histories extended with vacuum and doctor: next_frame_id() before each put equals the id the document receives, ids are dense and in put order, and (uri, payload, role) of every id stay the same across commit, reopen, delete, update, vacuum, doctor and crash recovery.")
+_hist("C07", "Content oracles on the same histories over payload classes empty/tiny/binary/zero-filled/compressible/invalid UTF-8/text around the 2400-character threshold/structured/multi-byte: canonical payload and blob reader equal the bytes given, blake3 of the stored range equals Frame.checksum, chunked documents equal the concatenation of their chunk frames and (unstructured text) normalize_text of the input.")
+_hist("C08", "Corpora with updates and deletes addressed by uri, then the read battery: no search hit, timeline entry or vector hit names a frame the model has as deleted or superseded; status, supersedes links and inherited fields are compared frame by frame.")
+_hist("C09", "Single-word queries over corpora with planted words (each planted once per document, so that top_k slots are not used up by several slices of one frame): every active frame whose own text contains the word must be among the hits when their number is at most top_k, with the sketch pre-filter on and off.")
+_hist("C10", "Random boolean queries (AND/OR/NOT, phrases, tag/track terms, uri/scope filters) printed to text; every hit must name an existing active frame whose own text and fields satisfy a reference evaluator with the substring semantics the property states, ranks 1..n, at most top_k hits, hit text equal to the chunk content at the hit range inside the chunk range; also issued while records are pending.")
+_hist("C11", "The same batteries with random as_of_frame / as_of_ts: no hit beyond the cut-off, and every filtered hit also appears in the unfiltered search.")
+_hist("C13", "Embedding sets (dimension 1..24, duplicates, zeros, large and subnormal magnitudes) with random queries and k: min(k,m) hits, non-decreasing distance, no omitted frame strictly closer than the last hit (f64 brute force), wrong dimension rejected, identical answers on live, reopened and read-only handles.")
+_hist("C14", "After every commit/reopen/doctor the set of frames reachable through search_vec(k = everything) and frame_embedding equals the model's active embedded set with the embeddings given; stats.vector_count agrees. Default feature configuration only (the hnsw_bench build is not exercised).")
+_hist("C15", "Random explicit timestamps (equal, negative, extreme), extracted-image frames, deletes and updates, random since/until/limit/reverse: the timeline equals the model's list ordered by (timestamp, id), reverse is the exact reverse, limit a prefix.")
+_hist("C16", "For every query of the battery the pages obtained by following next_cursor (page size 1..10) are compared with one large request: same (frame, range) sequence, no repeats, constant total_hits. Known findings cover the cases where a frame holds the query word several times (slice stream depends on top_k).")
+_hist("C28", "Differential: every query of the battery is issued on the live handle, after reopen, on a read-only handle and after a doctor rebuild; answers on the same committed state must be identical; hits returned while records are pending must contain the query.")
+
 NA = {
  "C30": "pure function of an in-memory value or byte slice (header/footer/TOC/time-index codecs): no schedule, clock, fault or history for a simulator to control",
  "C32": "pure function of a query string (and crate-private): no simulated dimension",
